@@ -34,6 +34,28 @@ Theorem C20_table_dial : forall h o f addr h' a,
 Proof. intros. split; [eapply dial_insecure; eauto | exact table_total]. Qed.
 Print Assumptions C20_table_dial.
 
+(* The decision is a function of the three documented inputs alone (Config nil?, its InsecureSkipVerify,
+   EnableHostVerification): two dials that agree on them verify alike, whatever else differs -- the other
+   fields of the caller's tls.Config (VerifyPeerCertificate, VerifyConnection, ClientAuth, MinVersion,
+   NextProtos, GetClientCertificate, ...: [c_other]), ServerName, RootCAs, Certificates, the files, the
+   address, the rest of the heap.  And those other fields reach the dialled configuration exactly as the
+   caller set them (all unset when Config is nil). *)
+Theorem C20_decision_only_documented_inputs : forall h1 o1 f1 addr1 h1' a1 h2 o2 f2 addr2 h2' a2,
+  dial_config h1 (Some o1) f1 addr1 = (h1', DTls a1) ->
+  dial_config h2 (Some o2) f2 addr2 = (h2', DTls a2) ->
+  cfg_column h1 o1 = cfg_column h2 o2 -> o_hv o1 = o_hv o2 ->
+  verifies h1' a1 = verifies h2' a2
+  /\ c_other (get_cfg h1' a1) = c_other (src_cfg h1 o1)
+  /\ (o_config o1 = None -> c_other (get_cfg h1' a1) = 0).
+Proof.
+  intros h1 o1 f1 addr1 h1' a1 h2 o2 f2 addr2 h2' a2 H1 H2 Hc Hv.
+  pose proof (dial_insecure _ _ _ _ _ _ H1) as D1. pose proof (dial_insecure _ _ _ _ _ _ H2) as D2.
+  rewrite Hc, Hv, D2 in D1. injection D1 as D1.
+  split; [now symmetry|]. split; [eapply dial_other; eauto|].
+  intros Hn. rewrite (dial_other _ _ _ _ _ _ H1). unfold src_cfg. now rewrite Hn.
+Qed.
+Print Assumptions C20_decision_only_documented_inputs.
+
 (* Every tls.Config object that existed before the call -- the caller's own one included -- has the same
    InsecureSkipVerify, ServerName, RootCAs pointer and certificates after setupTLSConfig + tlsConfigForAddr,
    and the returned object is a new one. *)
@@ -219,7 +241,7 @@ Qed.
 Print Assumptions C20_session_requires_auth_success.
 
 (* ---- non-vacuity: the hypotheses above are satisfiable by concrete, non-trivial values -------------- *)
-Definition ex_heap : heap := mkHeap [mkCfg true [] (Some 0%nat) 1] [[7]].
+Definition ex_heap : heap := mkHeap [mkCfg true [] (Some 0%nat) 1 5] [[7]].
 Definition ex_opts : sslopts := mkOpts (Some 0%nat) true true true true.
 Definition ex_fs : fsenv := mkFs (Some [7; 8]) true.
 Definition ex_addr : list Z := join_host_port [102; 100; 48; 48; 58; 58; 49] [57; 48; 52; 50].   (* "[fd00::1]:9042" *)
@@ -228,6 +250,7 @@ Example C20_nonvacuous_tls :
   wf_heap ex_heap
   /\ (exists h' a, dial_config ex_heap (Some ex_opts) ex_fs ex_addr = (h', DTls a)
                    /\ verifies h' a = true
+                   /\ c_other (get_cfg h' a) = 5
                    /\ c_name (get_cfg h' a) = [91; 102; 100; 48; 48; 58; 58; 49; 93]
                    /\ tls_handshake_ok h' a (mkCert 8 [[102; 100; 48; 48; 58; 58; 49]]) = true
                    /\ tls_handshake_ok h' a (mkCert 9 [[102; 100; 48; 48; 58; 58; 49]]) = false)
